@@ -628,6 +628,26 @@ impl Check for C09 {
                 p
             }
         }));
+        // an exchange the terminal ends with an abort has completed normally, whatever the code and
+        // whatever the client makes of it ('receiver not ready' at end-of-day is even tolerated): the
+        // connection is kept and the next call goes out on it
+        fams.push(Family::new("aborted_exchange_keeps_the_connection", 6 * 4, true, |i, _| {
+            let code = [0xa0u8, 0x6c, 0xb8, 0xff][(i % 4) as usize];
+            let eod_abort = CleanupSpec { eod: EodOutcome { pre: 0, status: false, prints: 0, end: EndSpec::Abort(code) }, ..CleanupSpec::plain() };
+            let rev_abort = RevOutcome { pre: 0, status: false, prints: 0, end: EndSpec::Abort(code) };
+            let ops = match i / 4 {
+                0 => vec![begin("A"), OpSpec::Commit { token: "A".into(), amount: 1000, rev: RevOutcome::success(), cleanup: eod_abort }, card_op(), begin("B")],
+                1 => vec![begin("A"), OpSpec::Cancel { token: "A".into(), rev: RevOutcome::success(), cleanup: eod_abort }, card_op()],
+                2 => vec![OpSpec::Configure { out: ConfigureOutcome { cleanup: eod_abort, ..ConfigureOutcome::plain() } }, card_op()],
+                3 => vec![begin("A"), OpSpec::Commit { token: "A".into(), amount: 1000, rev: rev_abort, cleanup: CleanupSpec::plain() }, card_op()],
+                4 => vec![OpSpec::Begin { token: "A".into(), res: ResOutcome { pre: 1, status: StatusMode::Absent, prints: 0, end: EndSpec::Abort(code) } }, card_op(), begin("B")],
+                _ => vec![OpSpec::ReadCard { card: CardOutcome { pre: 1, kind: CardKind::Abort(code), delay_ms: 0 } }, card_op(), begin("A")],
+            };
+            let mut p = ClientPlan::plain(ops);
+            p.cfg.max_tx = 2;
+            p.label = "aborted_exchange".into();
+            p
+        }));
         // the terminal answers the identity request of the handshake with a well-formed abort:
         // on the first connection, and on the replacement connection after a failure
         fams.push(Family::new("identity_request_aborted", 5 * 4 * 3, true, {
